@@ -250,7 +250,7 @@ pub fn compute_event(m: &Model, it: &mut Interner, same_as_last: bool) -> Value 
     let tbsj = vec![tbk!(k.tbs.roof), tbk!(k.tbs.balcony), tbk!(k.tbs.corner), tbk!(k.tbs.intermediate_floor),
         tbk!(k.tbs.internal_wall), tbk!(k.tbs.ground_floor), tbk!(k.tbs.pillar), tbk!(k.tbs.window), tbk!(k.tbs.generic)];
     let kj = json!({
-        "K": qv(k.K.max(0.0), 1e4, "K", &mut bad), "Kneg": k.K < 0.0,
+        "K": qv(k.K.abs(), 1e4, "K", &mut bad), "Kneg": k.K < 0.0,
         "walls": cw, "roofs": cr, "floors": cf, "ground": cg, "windows": cv,
         "tbs": tbsj,
         "sum": {"a": qv(s.a, 1e2, "K.sum.a", &mut bad), "au": sau, "auneg": sauneg,
@@ -258,9 +258,6 @@ pub fn compute_event(m: &Model, it: &mut Interner, same_as_last: bool) -> Value 
                 "wina": qv(s.windows_a, 1e2, "K.sum.wina", &mut bad), "winau": qv(s.windows_au, 1e2, "K.sum.winau", &mut bad),
                 "tbl": qv(s.tbs_l, 1e2, "K.sum.tbl", &mut bad), "tbpsil": spsil, "tbpsilneg": spsilneg},
     });
-    if k.K < 0.0 {
-        bad.push(format!("K={}", k.K));
-    }
 
     // n50
     let n = &ind.n50_data;
